@@ -117,7 +117,9 @@ func (in *instance) next(p peer.ID, w http.ResponseWriter, r *http.Request) {
 }
 
 // serve sends one request (possibly mutated Authorization values, any Host) through the real server.
-func (in *instance) serve(host string, authz ...string) *call { return in.serveSNI(host, host, authz...) }
+func (in *instance) serve(host string, authz ...string) *call {
+	return in.serveSNI(host, host, authz...)
+}
 
 func (in *instance) serveSNI(host, sni string, authz ...string) *call {
 	req := httptest.NewRequest("POST", "http://placeholder.invalid/", nil)
@@ -202,6 +204,38 @@ func (in *instance) opaque(blob []byte) *issuedOpaque {
 	in.mu.Lock()
 	defer in.mu.Unlock()
 	return in.opaques[string(blob)]
+}
+
+// explain lists what the harness knows about every state blob a request carries (for witnesses).
+func (in *instance) explain(authz []string, now time.Time) []map[string]any {
+	var out []map[string]any
+	pm := looseParams(authz)
+	for _, k := range []string{"opaque", "bearer"} {
+		for _, v := range pm[k] {
+			blob, ok := looseB64(v)
+			if !ok {
+				out = append(out, map[string]any{"param": k, "record": "undecodable"})
+				continue
+			}
+			found := false
+			for _, o := range in.w.insts {
+				if op := o.opaque(blob); op != nil {
+					found = true
+					out = append(out, map[string]any{"param": k, "record": "challenge state", "issued_by": o.name, "issued_for_host": op.host,
+						"age": now.Sub(op.at).String(), "challenge_client": op.challenge, "bound_client_keys": len(op.boundKeys)})
+				}
+				if tk := o.token(blob); tk != nil {
+					found = true
+					out = append(out, map[string]any{"param": k, "record": "bearer token", "issued_by": o.name, "issued_for_host": tk.host,
+						"age": now.Sub(tk.at).String(), "issued_for_peer": tk.peer.String(), "tainted": tk.tainted})
+				}
+			}
+			if !found {
+				out = append(out, map[string]any{"param": k, "record": "never issued by any instance of this case"})
+			}
+		}
+	}
+	return out
 }
 
 // origin classifies a blob this instance never issued.
